@@ -740,7 +740,7 @@ func judgeHistoryY(c *core.Ctx, env *hs.Env, h []xMsg, cs any, yield func()) (ok
 	overlap := core.H64(histString(h))%3 == 0
 	sent := 0 // bytes of h[i] that arrived with the previous step
 	for i, m := range h {
-		evStart := len(cl.C.Events())
+		evStart := cl.C.NEvents()
 		in := m.bytes()[sent:]
 		sent = 0
 		if overlap && i+1 < len(h) {
@@ -755,7 +755,7 @@ func judgeHistoryY(c *core.Ctx, env *hs.Env, h []xMsg, cs any, yield func()) (ok
 			return false, run
 		}
 		run.Raw = append(run.Raw, out...)
-		evs := cl.C.Events()[evStart:]
+		evs := cl.C.EventsFrom(evStart)
 		parses, execs := xCollectTrace(evs)
 		for _, q := range parses {
 			run.Trace = append(run.Trace, "parse:"+q)
